@@ -1,6 +1,7 @@
 package schema
 
 import (
+	"regexp"
 	"fmt"
 	"strings"
 
@@ -408,6 +409,15 @@ func RandomManifest(t *rapid.T, root string, o ManifestOpts) *Schema {
 // CustomTyperefSource is the hand-written implementation of a custom typeref, in the shape of upstream's example
 // (internal/tests/testdata/generated_extras/extras/Temperature.go): a named type over the primitive and the four functions
 // the generated code refers to, plus Pointer().
+var nsEscape = regexp.MustCompile("([/.])_?internal([/.]?)")
+
+// NamespaceDir is the directory (relative to the output directory) in which the v2 generator puts - and looks for - the files
+// of a namespace: dots become slashes, a segment `internal` that is not the first one is written `_internal`
+// (codegen/utils FqcpToPackagePath).
+func NamespaceDir(ns string) string {
+	return strings.ReplaceAll(nsEscape.ReplaceAllString(ns, "${1}_internal${2}"), ".", "/")
+}
+
 // CaseInsensitiveTyperef is the name of the custom typeref of the resource corpus whose values are equal up to case.
 const CaseInsensitiveTyperef = "CaseId"
 
